@@ -193,6 +193,7 @@ pub fn deliver(sim: &mut Sim, d: &Delivery) -> u64 {
         use netflow_parser::variable_versions::{ipfix, v9};
         // definitions an id had before, after and (template sets of this very buffer) during the call
         let mut during: Vec<(crate::model::Proto, u16, crate::model::TDef)> = Vec::new();
+        let mut opaque_defs = false;
         for el in &r {
             match el {
                 NetflowPacket::V9(x) => {
@@ -215,8 +216,16 @@ pub fn deliver(sim: &mut Sim, d: &Delivery) -> u64 {
                 NetflowPacket::IPFix(x) => {
                     for fs in &x.flowsets {
                         match &fs.body {
-                            ipfix::FlowSetBody::Template(t) => during.push((crate::model::Proto::Ipfix, t.template_id, def_ip_tpl(t))),
-                            ipfix::FlowSetBody::OptionsTemplate(t) => during.push((crate::model::Proto::Ipfix, t.template_id, def_ip_opt(t))),
+                            ipfix::FlowSetBody::Template(t) => {
+                                during.push((crate::model::Proto::Ipfix, t.template_id, def_ip_tpl(t)));
+                                // further records of the set are learned but reported only as
+                                // padding bytes: definitions this check cannot see
+                                opaque_defs |= t.padding.len() >= 4;
+                            }
+                            ipfix::FlowSetBody::OptionsTemplate(t) => {
+                                during.push((crate::model::Proto::Ipfix, t.template_id, def_ip_opt(t)));
+                                opaque_defs |= t.padding.len() >= 4;
+                            }
                             _ => {}
                         }
                     }
@@ -268,7 +277,9 @@ pub fn deliver(sim: &mut Sim, d: &Delivery) -> u64 {
                         let got: u64 = fields.iter().map(|m| m.len() as u64).sum();
                         let body = usize::from(fs.header.length).saturating_sub(4);
                         let allowed = allowed_for(&tpl_of(crate::model::Proto::Ipfix, fs.header.header_id), body);
-                        if got > allowed {
+                        if got > allowed && opaque_defs {
+                            sim.stats.probe("value_bound_not_judged_definition_not_visible");
+                        } else if got > allowed {
                             sim.find("C15-more-values-than-the-bytes-can-hold", d.ev, format!("IPFIX data set {} with a {}-byte body yields {} decoded values; its template allows at most {}", fs.header.header_id, body, got, allowed));
                         }
                     }
